@@ -425,9 +425,144 @@ func genRunningBoundary(r *vh.Rng) jobctl.History {
 	return h
 }
 
+// ---------- the requeue budget (--max-requeue-num, handleJobError) ----------
+// One request VALUE is delivered again and again while an API fault persists, for at least
+// budget+1 consecutive reconciliations, so that the controller gives up on it and sends
+// TerminateJob through the job's current state; the job starts in any phase (the final ones,
+// Aborted and the transient ones included) and still owns a Running pod, so that every kill has
+// a pod to delete.  The give-up execution has its own fault plan (kinds 11-14).
+func genRequeue(r *vh.Rng) (jobctl.History, bool) {
+	var s jobctl.Spec
+	for {
+		s = genSpec(r)
+		total := int64(0)
+		for _, t := range s.Tasks {
+			total += t.Replicas
+		}
+		if total >= 1 {
+			break
+		}
+	}
+	h := jobctl.History{Spec: s, Status: jobctl.Status{TscNil: true}}
+	h.MaxRequeueP1 = int64(vh.Pick(r, []int{1, 1, 2, 2, 3, 4, 0}))
+	budget := h.MaxRequeueP1 - 1
+	genInitial(r, s, &h)
+	h.Status.Phase = int64(vh.Pick(r, []int{7, 7, 10, 9, 3, 3, 2, 6, 5, 8, 4, 4, 1, 0}))
+	if h.Status.Phase == 0 {
+		h.Status = jobctl.Status{TscNil: true} // a job the controller has not initialised yet
+	}
+	// a live Running pod of the job
+	var live *jobctl.Pod
+	for k := range h.Pods {
+		if !h.Pods[k].Del {
+			live = &h.Pods[k]
+			break
+		}
+	}
+	if live == nil && len(h.Pods) > 0 {
+		live = &h.Pods[0]
+	}
+	if live == nil {
+		for _, t := range s.Tasks {
+			if t.Replicas > 0 {
+				h.Pods = []jobctl.Pod{{Task: t.Name, Idx: 0}}
+				live = &h.Pods[0]
+				break
+			}
+		}
+	}
+	live.Phase, live.Del = 1, false
+	if r.Chance(5, 6) {
+		h.Pg = i64p(int64(vh.Pick(r, []int{3, 3, 3, 2, 1})))
+	} else {
+		h.Pg = nil
+	}
+	// the request: mostly a plain sync, sometimes a command or a pod event
+	q := jobctl.Req{Event: 8, UidMatch: int64(vh.Pick(r, []int{1, 2}))}
+	switch r.Intn(6) {
+	case 0:
+		q.Event, q.Action = 9, i64p(int64(vh.Pick(r, []int{1, 2, 6, 7, 8}))) // abort, restart, terminate, complete, resume
+	case 1:
+		q.Event = 2 // PodFailed
+		q.Task = i64p(live.Task)
+		q.Pod = &[2]int64{live.Task, live.Idx}
+	}
+	q.Version = h.Status.Version + int64(vh.Pick(r, []int{0, 0, 1, 3}))
+	// the persisting fault
+	var faults []jobctl.Fault
+	switch r.Intn(8) {
+	case 0, 1, 2:
+		faults = []jobctl.Fault{{Kind: 2, A: live.Task, B: live.Idx}} // the pod's deletion is refused
+	case 3:
+		faults = []jobctl.Fault{{Kind: 3, A: live.Task, B: live.Idx}} // the out-of-sync patch is refused
+	case 4, 5:
+		faults = []jobctl.Fault{{Kind: 4, A: 0}, {Kind: 4, A: 1}} // every status update is refused
+	case 6:
+		faults = []jobctl.Fault{{Kind: 4, A: int64(r.Intn(2))}}
+	default:
+		// creation of a missing replica is refused
+		for _, t := range s.Tasks {
+			for i := int64(0); i < t.Replicas; i++ {
+				faults = append(faults, jobctl.Fault{Kind: 1, A: t.Name, B: i})
+			}
+		}
+	}
+	// what the give-up execution meets: nothing (mostly), the same fault, or a refused status update
+	var give []jobctl.Fault
+	switch r.Intn(6) {
+	case 0:
+		for _, f := range faults {
+			give = append(give, jobctl.Fault{Kind: f.Kind + 10, A: f.A, B: f.B})
+		}
+	case 1:
+		give = []jobctl.Fault{{Kind: 14, A: 0}}
+	}
+	q.Faults = append(append([]jobctl.Fault{}, faults...), give...)
+	deliveries := int(budget) + 1 + vh.Pick(r, []int{0, 0, 0, 1, -1})
+	if budget < 0 {
+		deliveries = r.Range(2, 4)
+	}
+	if deliveries < 1 {
+		deliveries = 1
+	}
+	for k := 0; k < deliveries; k++ {
+		h.Ops = append(h.Ops, jobctl.Op{Code: 1, Req: q})
+		switch r.Intn(8) {
+		case 0:
+			h.Ops = append(h.Ops, jobctl.Op{Code: 7})
+		case 1:
+			h.Ops = append(h.Ops, jobctl.Op{Code: 6})
+		case 2:
+			h.Ops = append(h.Ops, jobctl.Op{Code: 2, T: live.Task, I: live.Idx, Ph: int64(vh.Pick(r, []int{1, 2, 3}))}, jobctl.Op{Code: 7})
+		}
+	}
+	// afterwards: the views catch up; the same request without faults (forgotten only by a success),
+	// once more with them (its count is still at the budget: the controller gives up at once), a
+	// restart (new queue), other requests
+	for k := r.Range(0, 6); k > 0; k-- {
+		switch r.Intn(9) {
+		case 0, 1:
+			h.Ops = append(h.Ops, jobctl.Op{Code: 7}, jobctl.Op{Code: 6}, jobctl.Op{Code: 8})
+		case 2:
+			q2 := q
+			q2.Faults = nil
+			h.Ops = append(h.Ops, jobctl.Op{Code: 1, Req: q2})
+		case 3, 4:
+			h.Ops = append(h.Ops, jobctl.Op{Code: 1, Req: q})
+		case 5:
+			h.Ops = append(h.Ops, jobctl.Op{Code: 10}, jobctl.Op{Code: 7}, jobctl.Op{Code: 6}, jobctl.Op{Code: 8})
+		case 6:
+			h.Ops = append(h.Ops, jobctl.Op{Code: 11, Spec: s}, jobctl.Op{Code: 6})
+		default:
+			h.Ops = append(h.Ops, jobctl.Op{Code: 1, Req: genReq(r, s, h.Status.Version, r.Chance(1, 3))})
+		}
+	}
+	return h, budget >= 0 && deliveries > int(budget)
+}
+
 func descHistory(h jobctl.History) any {
 	return map[string]any{"tasks": len(h.Spec.Tasks), "minAvailable": h.Spec.Min, "maxRetry": h.Spec.MaxRetry,
-		"initial_phase": h.Status.Phase, "initial_pods": len(h.Pods), "ops": len(h.Ops)}
+		"initial_phase": h.Status.Phase, "initial_pods": len(h.Pods), "ops": len(h.Ops), "maxRequeueNum": h.MaxRequeueP1 - 1}
 }
 
 func gen(rng *vh.Rng, n int, emit func(id string, sel int, in []int64, kind string, nontrivial bool, desc any)) {
@@ -461,5 +596,13 @@ func gen(rng *vh.Rng, n int, emit func(id string, sel int, in []int64, kind stri
 		w.Z(ver)
 		w.Req(q)
 		emit(fmt.Sprintf("policies-%d", i), 2, w.T, "applyPolicies", len(s.Policies) > 0 || q.Action != nil, nil)
+	}
+	// the requeue budget: a request that keeps failing until the controller gives up on it
+	for i := 0; i < n/2+1; i++ {
+		r := rng.Fork()
+		h, nt := genRequeue(r)
+		w := &jobctl.W{}
+		w.History(h)
+		emit(fmt.Sprintf("hist-requeue-%d", i), 1, w.T, "history/requeue", nt, descHistory(h))
 	}
 }
